@@ -74,6 +74,9 @@ func runC02(c *core.Ctx) {
 			runTreeSetNav(c, StructDom(c.R.Range(4, 24)))
 		case 9:
 			runTreeSetNav(c, FKeyDom(c.R.Range(4, 24)))
+		case 7:
+			c.Count("keytype:wide-int", 1)
+			runTreeSetNav(c, WideIntDom(c.R, c.R.Range(4, 24)))
 		default:
 			runTreeSetNav(c, IntDom(c.R.Range(4, 40)))
 		}
@@ -88,6 +91,10 @@ func runC02(c *core.Ctx) {
 		return
 	case 9:
 		runKVCase(c, kind, FKeyDom(c.R.Range(4, 12)), floatKey, func(m *KVMon[float64, int]) { m.Nav = true })
+		return
+	case 7:
+		c.Count("keytype:wide-int", 1)
+		runKVCase(c, kind, WideIntDom(c.R, c.R.Range(4, 14)), wideIntKey, func(m *KVMon[int, int]) { m.Nav = true })
 		return
 	}
 	runKVCase(c, kind, IntDom(c.R.Range(4, 12)), intKey, func(m *KVMon[int, int]) { m.Nav = true })
